@@ -1534,6 +1534,45 @@ func ruleLock8(c *Ctx, r *Reporter) {
 					}
 					badExit := exitWithoutPassing(in, isClear, nil)
 					leak := badExit != nil
+					if leak && fn.Object() != nil && !fn.Object().Exported() {
+						// a reservation helper: the flag is handed to the callers, each of which must clear it on every way out
+						sites, okSites := 0, 0
+						for _, g := range c.repoFuncs() {
+							if fnPkgPath(g) != pkgLungo {
+								continue
+							}
+							allInstrs(g, func(x ssa.Instruction) {
+								if call, ok := x.(*ssa.Call); ok && call.Call.StaticCallee() == fn {
+									sites++
+									// only the paths on which the helper succeeded carry the flag
+									starts := []ssa.Instruction{}
+									for _, ec := range errChecksOf(errorResult(call)) {
+										if len(ec.OkSucc.Instrs) > 0 {
+											starts = append(starts, ec.OkSucc.Instrs[0])
+										}
+									}
+									if len(starts) == 0 {
+										starts = append(starts, call)
+									}
+									good := true
+									for _, st0 := range starts {
+										if isClear(st0) {
+											continue
+										}
+										if exitWithoutPassing(st0, isClear, nil) != nil {
+											good = false
+										}
+									}
+									if good {
+										okSites++
+									}
+								}
+							})
+						}
+						if sites > 0 && sites == okSites {
+							leak = false
+						}
+					}
 					clears := []int{1}
 					r.check(!leak && len(clears) > 0, funcName(fn)+":s.starting=true", c.pos(in.Pos()), "cleared on every path to a return", "a path returns with s.starting still set: the session can never start a transaction again")
 				}
